@@ -119,6 +119,8 @@ def replay_run(check, case, trace):
 def _chunk_worker(check, base_seed, tier, start, count, deadline, wfd):
     """Runs in a forked child: execute runs [start, start+count) and pickle a summary."""
     faulthandler.enable()
+    if hasattr(check, "worker_init"):
+        check.worker_init()
     out = {
         "runs": 0, "nontrivial": 0, "digests": set(), "sim_time": 0.0, "steps": 0,
         "stats": {}, "violations": [], "samples": [], "harness_errors": [], "switches": 0,
